@@ -252,7 +252,7 @@ Section Dot.
      n x p matrix; the result is the CSC triple of a @ b (p columns).  Pre-count
      _csc_ndarray_count_nnz: per column i of b, the DISTINCT row indices touched through the
      non-zero b[j, i]; it also fills indptr.  The kernel then accumulates the column with the same
-     linked list (in `mask`), but writes a cell only `if sums[head] != 0`. *)
+     linked list (kept in `mask`), writes every touched position and sorts the segment. *)
   Definition csc_keys (a_indices a_indptr : list Z) (b : dense2) (n_in : Z) (i : Z) : list Z :=
     flat_map (fun j => if veqb (b j i) vzero then [] else row_cols a_indices a_indptr j) (zrange n_in).
 
@@ -272,27 +272,31 @@ Section Dot.
                        else map (fun kv => (fst kv, vmul u (snd kv))) (row_pairs a j)) (zrange n_in).
 
   (*  for _ in range(length):
-         if sums[head] != 0: indices[nnz] = head; data[nnz] = sums[head]; nnz += 1
+         indices[nnz] = head; data[nnz] = sums[head]; nnz += 1        (every touched position)
          temp = head; head = mask[head]; mask[temp] = -1; sums[temp] = 0  *)
-  Fixpoint emit_nz (n : nat) (nx : list Z) (sm : list V) (head : Z) : list Z * list V * Z * list (Z * V) :=
+  Fixpoint emit_all (n : nat) (nx : list Z) (sm : list V) (head : Z) : list Z * list V * Z * list (Z * V) :=
     match n with
     | O => (nx, sm, head, [])
     | S n' =>
       let '(nx', sm', h', r) :=
-        emit_nz n' (wr nx head (-1)) (wr sm head vzero) (znth nx head 0) in
-      (nx', sm', h',
-       if negb (veqb (znth sm head vzero) vzero) then (head, znth sm head vzero) :: r else r)
+        emit_all n' (wr nx head (-1)) (wr sm head vzero) (znth nx head 0) in
+      (nx', sm', h', (head, znth sm head vzero) :: r)
     end.
+
+  (* one iteration of `for i in range(b_shape[1])`: mask and sums are carried over (the emission
+     loop restores them); the written segment is then sorted by position (argsort) *)
+  Definition csc_col_step (a : csr) (b : dense2) (n_in : Z) (st : list Z * list V * list (Z * V)) (i : Z)
+    : list Z * list V * list (Z * V) :=
+    let '(mask, sm, out) := st in
+    let '(mask1, sm1, head, len) := fold_left acc_step (csc_stream a b n_in i) (mask, sm, -2, 0) in
+    let '(mask2, sm2, _, r) := emit_all (Z.to_nat len) mask1 sm1 head in
+    (mask2, sm2, out ++ sort_cells r).
 
   Definition dot_csc_ndarray_sparse (m n_in p : Z) (a : csr) (b : dense2) : kres csr :=
     let '(cap, ptr) := csc_ndarray_count_nnz m n_in p (m_indices a) (m_indptr a) b in
     let '(_, _, out) :=
-      fold_left (fun (st : list Z * list V * list (Z * V)) i =>
-                   let '(mask, sm, out) := st in
-                   let '(mask1, sm1, head, len) := fold_left acc_step (csc_stream a b n_in i) (mask, sm, -2, 0) in
-                   let '(mask2, sm2, _, r) := emit_nz (Z.to_nat len) mask1 sm1 head in
-                   (mask2, sm2, out ++ r))
-                (zrange p) (repeat (-1) (Z.to_nat m), repeat vzero (Z.to_nat m), []) in
+      fold_left (csc_col_step a b n_in) (zrange p)
+                (repeat (-1) (Z.to_nat m), repeat vzero (Z.to_nat m), []) in
     let written := Z.of_nat (length out) in
     if cap <? written then KOob
     else if written <? cap then KTail
